@@ -47,6 +47,9 @@ type Interp struct {
 	TableHook  func(in *Interp, idx AVal, valueOf func(k int64) (AVal, bool), zero AVal) (AVal, bool)
 	ConvHook   func(in *Interp, x AVal, to types.Type) (AVal, bool)
 	LenHook    func(in *Interp, x AVal) (AVal, bool)
+	// Unmodelled is told about every call to a function outside the repository (or an interface
+	// method) for which no model exists, before the result becomes an opaque symbol.
+	Unmodelled func(in *Interp, site ssa.Instruction, name string, args []AVal)
 	AtomHook   func(in *Interp, atom string) (int, bool) // pre-decided atoms
 	MaxSteps   int
 	MaxDepth   int
@@ -1453,6 +1456,9 @@ func (in *Interp) doCall(fr *frame, site ssa.Instruction, cc *ssa.CallCommon, ar
 				return r
 			}
 		}
+		if in.Unmodelled != nil {
+			in.Unmodelled(in, site, "invoke:"+cc.Method.Name()+"@"+shortType(cc.Value.Type().String()), args)
+		}
 		return mk(name + "(" + argKeys(args) + ")")
 	}
 	if callee := staticCallee(cc); callee != nil {
@@ -1468,6 +1474,9 @@ func (in *Interp) doCall(fr *frame, site ssa.Instruction, cc *ssa.CallCommon, ar
 				args = args[1:]
 			}
 			return in.callFn(callee, args, bind)
+		}
+		if in.Unmodelled != nil {
+			in.Unmodelled(in, site, name, args)
 		}
 		return mk(name + "(" + argKeys(args) + ")")
 	}
